@@ -264,6 +264,8 @@ class ExprCall(Expr):
     @property
     def canonical_path(self) -> str:
         """The canonical path of this subscript's left part."""
+        if isinstance(self.function, str):
+            return self.function
         return self.function.canonical_path
 
     def iterate(self, *, flat: bool = True) -> Iterator[str | Expr]:
